@@ -55,14 +55,42 @@ def gen_cases(rng, n, tier):
 
 def corpus():
     cfg = dict(shape='blog', strategy='validity')
-    return [dict(kind='H', cfg=cfg, prog=[['add', 0, 1, {'a': 1}], ['add', 2, 1, {'a': 1}], ['commit'], ['rawlink', 1, 1], ['commit']]),
+    inh = dict(shape='inh', strategy='validity', changes=False, tracker=False, null_delete=False, autoflush=False)
+    return [dict(kind='H', cfg=inh, prog=[['add', 0, 1, {'a': 1}], ['commit'], ['del', 0, 1], ['flush'],
+                                          ['add', 2, 1, {'a': 2, 'tracks': 3}], ['commit']]),
+            dict(kind='H', cfg=cfg, prog=[['add', 0, 1, {'a': 1}], ['add', 2, 1, {'a': 1}], ['commit'], ['rawlink', 1, 1], ['commit']]),
             dict(kind='H', cfg=cfg, prog=[['add', 0, 1, {'a': 1}], ['add', 2, 1, {'a': 1}], ['link', 1, 1], ['flush'], ['unlink', 1, 1], ['commit']]),
             dict(kind='H', cfg=cfg, prog=[['add', 0, 1, {'a': 1}], ['add', 2, 1, {'a': 1}], ['flush'], ['rawlink_inline', 1, 1], ['add', 0, 2, {'a': 1}], ['commit']]),
             dict(kind='R', cfg=dict(shape='blog', strategy='validity', changes=True, twin=False),
                  prog=[['add', 0, 1, {'a': 1}], ['commit']], prog2=[['set', 0, 1, {'a': 2}], ['add', 1, 1, {'a': 0}], ['commit']])]
 
 
+def _class_change(case):
+    """inh shape: within one transaction a key is deleted, flushed, and added again as ANOTHER class of the hierarchy"""
+    if case['cfg'].get('shape') != 'inh':
+        return False
+    deleted, flushed = {}, set()
+    for op in case['prog']:
+        if op[0] in ('commit', 'rollback'):
+            deleted, flushed = {}, set()
+        elif op[0] in ('del', 'delbase'):
+            deleted[json.dumps(op[2])] = op[1]
+        elif op[0] == 'flush':
+            flushed |= set(deleted)
+        elif op[0] == 'add' and json.dumps(op[2]) in flushed and deleted.get(json.dumps(op[2])) != op[1]:
+            return True
+    return False
+
+
 def classify(case, obs):
+    if case.get('kind') == 'H' and _class_change(case):
+        a, b = obs.get('outcomes') or [], obs.get('plain_outcomes') or []
+        if any(x == 'error:IntegrityError' and y == 'ok' for x, y in zip(a, b)):
+            return 'F-C07-class-change-in-transaction'
+    return _classify_active_history(case, obs)
+
+
+def _classify_active_history(case, obs):
     """Open finding: with versioning, attribute assignment on an expired object loads the old value
     (active_history), which autoflushes pending objects earlier than without versioning; a later
     session.delete() of an object that is still pending in the unversioned run then fails there only."""
